@@ -40,28 +40,35 @@ mod h {
                     let r: $t = (..=e).gen_from_u64(raw);
                     assert!(0 <= r && r <= e);
                 }
-                // ---- reachability: every value of the range is produced by some raw output (explicit witness)
+                // ---- reachability: every value of the range is produced by some raw output.  The witness is explicit; so that an
+                // implementation reading another part of the raw word (the high half, the top bits of the type's width) is not reported as
+                // unreachable, the offset is offered at each of these positions and one of the candidates has to produce the value
                 #[kani::proof]
                 fn range_reach() {
                     let (s, e, v): ($t, $t, $t) = (kani::any(), kani::any(), kani::any());
                     kani::assume(s <= v && v < e);
-                    let raw = (v as $ut).wrapping_sub(s as $ut) as u64;
-                    let r: $t = (s..e).gen_from_u64(raw);
-                    assert!(r == v);
+                    let off = (v as $ut).wrapping_sub(s as $ut) as u64;
+                    let mir = (e as $ut).wrapping_sub(v as $ut).wrapping_sub(1) as u64;     // the same value counted down from the end
+                    let hit = |raw: u64| -> bool { let r: $t = (s..e).gen_from_u64(raw); r == v };
+                    assert!(hit(off) || hit(mir) || (<$ut>::BITS < 64 && (hit(off << (64 - <$ut>::BITS)) || hit(mir << (64 - <$ut>::BITS))))
+                        || (<$ut>::BITS < 32 && hit(off << 32)));
                 }
                 #[kani::proof]
                 fn range_inclusive_reach() {
                     let (s, e, v): ($t, $t, $t) = (kani::any(), kani::any(), kani::any());
                     kani::assume(s <= v && v <= e);
-                    let raw = if s == <$t>::MIN && e == <$t>::MAX { v as $ut as u64 } else { (v as $ut).wrapping_sub(s as $ut) as u64 };
-                    let r: $t = (s..=e).gen_from_u64(raw);
-                    assert!(r == v);
+                    let off = if s == <$t>::MIN && e == <$t>::MAX { v as $ut as u64 } else { (v as $ut).wrapping_sub(s as $ut) as u64 };
+                    let mir = if s == <$t>::MIN && e == <$t>::MAX { !(v as $ut) as u64 } else { (e as $ut).wrapping_sub(v as $ut) as u64 };
+                    let hit = |raw: u64| -> bool { let r: $t = (s..=e).gen_from_u64(raw); r == v };
+                    assert!(hit(off) || hit(mir) || (<$ut>::BITS < 64 && (hit(off << (64 - <$ut>::BITS)) || hit(mir << (64 - <$ut>::BITS))))
+                        || (<$ut>::BITS < 32 && hit(off << 32)));
                 }
                 #[kani::proof]
                 fn range_full_reach() {
                     let v: $t = kani::any();
-                    let r: $t = (..).gen_from_u64(v as $ut as u64);
-                    assert!(r == v);
+                    let off = v as $ut as u64;
+                    let hit = |raw: u64| -> bool { let r: $t = (..).gen_from_u64(raw); r == v };
+                    assert!(hit(off) || hit(off << 32) || hit(off << (64 - <$ut>::BITS)) || hit(off.rotate_left(32)));
                 }
             }
         };
